@@ -320,6 +320,11 @@ def register(reg):
                      ensures=extend_rl_ens))
 
 
+def register_all(reg):
+    register(reg)
+    register_extend(reg)
+
+
 def _flag(eng, st, v):
     """a bool argument that may be absent (default False) or a concrete python bool"""
     if v is None or isinstance(v, VNone):
@@ -344,3 +349,104 @@ def on_list(c):
 KEYS = ["ViewRepresentation.is_trivial_when_intermediate_", "OrderRowsNode.is_trivial_when_intermediate_"] + \
        ["ViewRepresentation." + b for b in ("natural_join", "concat_rows", "select_rows_parsed_", "drop_columns", "map_columns", "rename_columns", "order_rows", "convert_records", "select_columns", "project_parsed_")] + \
        ["%s.replace_leaves" % c for c in ("ProjectNode", "SelectRowsNode", "SelectColumnsNode", "DropColumnsNode", "OrderRowsNode", "RenameColumnsNode", "ConvertRecordsNode", "ConcatRowsNode", "MapColumnsNode", "ExtendNode")]
+
+
+# ====================================================================== extend_parsed_: when may two extends be merged (C06-2)
+def register_extend(reg):
+    import contracts.c06_merge as cm
+    from spec.sem_z3 import TableSem
+    if "try_to_merge_ops" not in reg.contracts:
+        cm.register(reg)
+    Raised = __import__("pyvc.engine", fromlist=["Raised"]).Raised
+
+    def iw(S):
+        return S.func("implies_windowed", z3.ArraySort(S.Atom, z3.BoolSort()), z3.ArraySort(S.Atom, S.sort("Expr")), z3.BoolSort())
+
+    def iw_apply(eng, st, argmap, node):
+        d = argmap["parsed_exprs"]
+        eng.registry.note("assumed: expr_rep.implies_windowed(ops) is a pure function of the assignment map")
+        return [(st, VScalar(iw(eng.S)(d.dom, d.val), T.bool))]
+
+    reg.add(Contract(key="data_algebra.expr_rep.implies_windowed", params={"parsed_exprs": OPS}, assumed=True, apply=iw_apply))
+
+    def trivial_formula(eng, st, node):
+        lim = eng.read_field(st, VScalar(node.z, T.obj("OrderRowsNode")), "limit")
+        return z3.And(eng.tag_of(st, node) == eng.classes["OrderRowsNode"].tag, lim.is_none)
+
+    def is_one(v):
+        return isinstance(v, VPy) and v.obj == 1
+
+    def plen(v):
+        """number of partition columns of a normalised partition_by argument (1 means 'one big partition': no columns)"""
+        if is_one(v) or isinstance(v, VNone):
+            return z3.IntVal(0)
+        if isinstance(v, VTuple):
+            return z3.IntVal(len(v.items))
+        return v.n
+
+    def ens(c):
+        eng, st, S = c.eng, c.st, c.S
+        if c.raised:
+            return []
+        r = c.result
+        if not (isinstance(r, VScalar) and r.ty.kind == "obj"):
+            return [("returns-a-pipeline", z3.BoolVal(False))]
+        pb, ob, rev = c.partition_by, c.order_by, c.reverse
+        args = [c.parsed_ops, pb, ob, rev]
+        triv = trivial_formula(eng, st, c.self)
+        src = VScalar(c.field(c.self, "sources").arr[0], NODE)
+        fwd = ufun(eng, "build_extend_parsed_", zargs(eng, st, [src] + args))
+        plain = ufun(eng, "new_ExtendNode", zargs(eng, st, [c.self] + args))
+        out = [("eliminated-order_rows-forwards-every-argument", z3.Implies(triv, r.z == fwd))]
+        is_ext = eng.tag_of(st, c.self) == eng.classes["ExtendNode"].tag
+        me = VScalar(c.self.z, T.obj("ExtendNode"))
+        merged = st.ghost.get("last_merge_result")
+        # windowed-ness of the NEW step as ExtendNode.__init__ decides it: an aggregating op, partition_by=1, partition columns or order columns
+        new_windowed = z3.Or(iw(S)(c.parsed_ops.dom, c.parsed_ops.val), z3.BoolVal(is_one(pb)), plen(pb) > 0, plen(ob) > 0)
+        same_spec = z3.And(is_ext, plen(pb) == c.field(me, "partition_by").n,
+                           eng.zbool(__import__("pyvc.engine", fromlist=["veq_safe"]).veq_safe(eng, ob, c.field(me, "order_by"), st, None)),
+                           eng.zbool(__import__("pyvc.engine", fromlist=["veq_safe"]).veq_safe(eng, rev, c.field(me, "reverse"), st, None)))
+        if merged is None:
+            out.append(("without-a-merge-the-new-step-is-built-on-this-step-from-every-argument", z3.Implies(z3.Not(triv), r.z == plain)))
+            return out
+        mnode = ufun(eng, "new_ExtendNode", zargs(eng, st, [src, merged] + [pb, ob, rev]))
+        out.append(("merged-node-sits-on-this-step's-source-with-the-merged-assignments-and-the-same-window", z3.Implies(z3.Not(triv), z3.Or(r.z == plain, r.z == mnode))))
+        same_part = (eng.zbool(__import__("pyvc.engine", fromlist=["veq_safe"]).veq_safe(eng, pb, c.field(me, "partition_by"), st, None))
+                     if not is_one(pb) else c.field(me, "partition_by").n == 0)
+        out.append(("merges-only-steps-with-the-same-partition-order-and-reverse", z3.Implies(z3.And(z3.Not(triv), r.z == mnode, r.z != plain), z3.And(same_spec, same_part))))
+        wname = "merges-only-steps-of-the-same-windowed-ness" + ("[partition_by=1]" if is_one(pb) else "[partition_by is a column list]")
+        out.append((wname, z3.Implies(z3.And(z3.Not(triv), r.z == mnode, r.z != plain), new_windowed == c.field(me, "windowed_situation").z)))
+        return out
+
+    def merge_apply(eng, st, argmap, node):
+        """call-site view of try_to_merge_ops (its own contract is discharged separately): None, or a merged map recorded for the postcondition"""
+        S = eng.S
+        facts = []
+        from pyvc.values import fresh
+        m = fresh(S, OPS, "merged_ops", facts)
+        for f in facts:
+            st.assume(f)
+        no = st.fork()
+        st.ghost["last_merge_result"] = m
+        return [(st, m), (no, VNone())]
+
+    def requires(c):
+        out = [("self-has-a-source-when-it-is-an-order-or-extend-node", z3.Implies(z3.Or(trivial_formula(c.eng, c.st, c.self), c.eng.tag_of(c.st, c.self) == c.eng.classes["ExtendNode"].tag),
+                                                                                 z3.And(c.field(c.self, "sources").n == 1, c.eng.allocated(c.st, VScalar(c.field(c.self, "sources").arr[0], NODE)))))]
+        return out
+
+    # inside extend_parsed_ the merge helper is abstracted; its semantic contract (merged = sequential) is the obligation of try_to_merge_ops itself
+    reg.contracts["try_to_merge_ops"].apply = merge_apply
+
+    for (tag, pbt) in (("[partition_by=None]", Ty_py(None)), ("[partition_by=1]", Ty_py(1)), ("[partition_by=list]", COLS)):
+        reg.add(Contract(key="ViewRepresentation.extend_parsed_" + tag, file=F, qualname="ViewRepresentation.extend_parsed_", cls="ViewRepresentation",
+                         params={"self": NODE, "parsed_ops": OPS, "partition_by": pbt, "order_by": T.opt(COLS), "reverse": T.opt(COLS)}, returns=NODE,
+                         requires=requires, ensures=ens, names=("extend_parsed_" + tag,)))
+
+
+def Ty_py(v):
+    from pyvc.values import Ty
+    return Ty("py", (v,))
+
+
+EXTEND_KEYS = ["ViewRepresentation.extend_parsed_" + t for t in ("[partition_by=None]", "[partition_by=1]", "[partition_by=list]")]
